@@ -4,6 +4,7 @@ import N0Verif.Proofs.XPathSpellings
 import N0Verif.Props.C01
 import N0Verif.Proofs.XPathHistory
 import N0Verif.Proofs.XPathHidden
+import N0Verif.Proofs.XPathMiss
 /-!
 # C05 — delete and pop remove exactly the addressed node
 
@@ -477,5 +478,159 @@ theorem C05_hidden_list_ok :
 example : ∃ t', delAt exHidden [.key ['a']] = some t' ∧
     delete 40 exHidden ['/', '/', 'a', '[', 'l', 'a', 's', 't', '(', ')', ']'] false = (t', .ok ()) :=
   C05_delete_hidden_list .n0 _ [] .n0 _ ['a'] (.int 1) .last 40 trivial rfl (pk 'a') (by decide) rfl (Or.inr rfl) (by decide)
+
+/-! ### missing paths: which kinds of miss are proved to be a miss (worker `c05miss`)
+
+`C05_pop_miss` is conditional on item access raising.  The theorems below discharge that hypothesis, unbounded in the size
+and depth of the tree, for the three kinds of missing path below an existing node of a dict-rooted tree with plain keys,
+in every spelling of the family of `C05_delete_spellings` (prefix none, `/`, `//` - the canonical path of `xpath()` is
+`renderSp .two` with literal attached indexes; index steps attached or separate, `i`, `-k`, `last()`, `last()-k`, `i+j`):
+an unknown key, a name step below a scalar, an index out of range.  What the real code does (checked on the checkout):
+`d[xp]` raises IndexError, `d.pop(xp, D)` returns `D`, `d.pop(xp)` returns `None` (`if_not_found=None`; `pop` never raises),
+`d.delete(xp)` raises KeyError (unknown key: `del parent_node[None]`) / IndexError (below a leaf: the exception of `_find`);
+the tree is unchanged in every case. -/
+
+/-- **C05 (pop of a missing path: unknown key).**  `steps` spell the path of an existing dict node, `k` is a key that node
+does not have, `tail` is whatever follows it: item access raises IndexError, `pop` returns the default - `None` when called
+without one - and the tree is unchanged, with and without `recursively`. -/
+theorem C05_pop_miss_unknown_key (cls : Cls) (kvs : List (Str × Val)) (lead : Lead) (steps tail : List StepSp)
+    (k : Str) (cls' : Cls) (kvs' : List (Str × Val)) (d : Val) (r : Bool)
+    (hp : PlainSteps (steps ++ .key k :: tail))
+    (hget : stepsGet (.dict cls kvs) steps = some (.dict cls' kvs')) (hl : lookup k kvs' = Option.none)
+    (hlead : lead ≠ .rel ∨ steps ≠ [] ∨ tail ≠ []) (fuel : Nat) (hf : fuel ≥ 2 * steps.length + 1) :
+    let t := Val.dict cls kvs
+    let xp := renderSp lead (steps ++ .key k :: tail)
+    getItem fuel t xp = (t, .error .IndexError) ∧ pop fuel t xp d r = .ok (t, d) ∧
+    pop fuel t xp Val.none r = .ok (t, Val.none) := by
+  intro t xp
+  have h := (miss_unknown_key fuel cls kvs lead steps tail k cls' kvs' hp hget hl hlead hf).1
+  have hq := renderSp_noQ lead (steps ++ .key k :: tail) hp (by simp)
+  exact ⟨(api_of_miss fuel t xp hq h d r).1, (api_of_miss fuel t xp hq h d r).2.2.2,
+    (api_of_miss fuel t xp hq h Val.none r).2.2.2⟩
+
+/-- **C05 (delete of a missing path: unknown key).**  Same paths: `delete` raises KeyError, with and without
+`recursively`, and leaves the tree as it was. -/
+theorem C05_delete_miss_unknown_key (cls : Cls) (kvs : List (Str × Val)) (lead : Lead) (steps tail : List StepSp)
+    (k : Str) (cls' : Cls) (kvs' : List (Str × Val)) (r : Bool)
+    (hp : PlainSteps (steps ++ .key k :: tail))
+    (hget : stepsGet (.dict cls kvs) steps = some (.dict cls' kvs')) (hl : lookup k kvs' = Option.none)
+    (hlead : lead ≠ .rel ∨ steps ≠ [] ∨ tail ≠ []) (fuel : Nat) (hf : fuel ≥ 2 * steps.length + 1) :
+    delete fuel (.dict cls kvs) (renderSp lead (steps ++ .key k :: tail)) r = (.dict cls kvs, .error .KeyError) :=
+  (miss_unknown_key fuel cls kvs lead steps tail k cls' kvs' hp hget hl hlead hf).2 r
+
+/-- **C05 (pop of a missing path: a name step below a leaf).**  `steps` spell the path of an existing node that is neither
+a dict nor a list; a name step `k` (and whatever else) follows. -/
+theorem C05_pop_miss_below_leaf (cls : Cls) (kvs : List (Str × Val)) (lead : Lead) (steps tail : List StepSp)
+    (k : Str) (c d : Val) (r : Bool) (hp : PlainSteps (steps ++ .key k :: tail))
+    (hget : stepsGet (.dict cls kvs) steps = some c) (hleaf : isList c = false ∧ isDict c = false)
+    (fuel : Nat) (hf : fuel ≥ 2 * steps.length + 1) :
+    let t := Val.dict cls kvs
+    let xp := renderSp lead (steps ++ .key k :: tail)
+    getItem fuel t xp = (t, .error .IndexError) ∧ pop fuel t xp d r = .ok (t, d) ∧
+    pop fuel t xp Val.none r = .ok (t, Val.none) := by
+  intro t xp
+  have h := (miss_below_leaf fuel cls kvs lead steps tail k c hp hget hleaf.1 hleaf.2 hf).1
+  have hq := renderSp_noQ lead (steps ++ .key k :: tail) hp (by simp)
+  exact ⟨(api_of_miss fuel t xp hq h d r).1, (api_of_miss fuel t xp hq h d r).2.2.2,
+    (api_of_miss fuel t xp hq h Val.none r).2.2.2⟩
+
+/-- **C05 (delete of a missing path: a name step below a leaf).**  `delete` raises IndexError (the exception of `_find`
+passes through), tree unchanged. -/
+theorem C05_delete_miss_below_leaf (cls : Cls) (kvs : List (Str × Val)) (lead : Lead) (steps tail : List StepSp)
+    (k : Str) (c : Val) (r : Bool) (hp : PlainSteps (steps ++ .key k :: tail))
+    (hget : stepsGet (.dict cls kvs) steps = some c) (hleaf : isList c = false ∧ isDict c = false)
+    (fuel : Nat) (hf : fuel ≥ 2 * steps.length + 1) :
+    delete fuel (.dict cls kvs) (renderSp lead (steps ++ .key k :: tail)) r = (.dict cls kvs, .error .IndexError) :=
+  (miss_below_leaf fuel cls kvs lead steps tail k c hp hget hleaf.1 hleaf.2 hf).2 r
+
+/-- **C05 (pop of a missing path: index out of range).**  The unconditional form of `C05_pop_miss` for the misses of
+`C01_out_of_range_miss` (`stepsMiss`: the steps walk along existing nodes and then index a list out of range). -/
+theorem C05_pop_miss_out_of_range (cls : Cls) (kvs : List (Str × Val)) (lead : Lead) (steps : List StepSp) (d : Val)
+    (r : Bool) (hp : PlainSteps steps) (hmiss : stepsMiss (.dict cls kvs) steps = true)
+    (fuel : Nat) (hf : fuel ≥ 2 * steps.length) :
+    pop fuel (.dict cls kvs) (renderSp lead steps) d r = .ok (.dict cls kvs, d) :=
+  pop_of_indexError fuel _ _ d r
+    (renderSp_noQ lead steps hp (by rintro rfl; rw [stepsMiss_nil] at hmiss; cases hmiss))
+    (N0.C01.C01_out_of_range_miss _ (Or.inl ⟨cls, kvs, rfl⟩) lead steps d hp hmiss fuel hf).1
+
+/-- **C05 (delete of a missing path: index out of range).**  Same paths: `delete` raises IndexError (`del parent_node[i]` on
+the list), with and without `recursively`, tree unchanged. -/
+theorem C05_delete_miss_out_of_range (cls : Cls) (kvs : List (Str × Val)) (lead : Lead) (steps : List StepSp)
+    (r : Bool) (hp : PlainSteps steps) (hmiss : stepsMiss (.dict cls kvs) steps = true)
+    (fuel : Nat) (hf : fuel ≥ 2 * steps.length) :
+    delete fuel (.dict cls kvs) (renderSp lead steps) r = (.dict cls kvs, .error .IndexError) :=
+  delete_out_of_range fuel cls kvs lead steps r hp hmiss hf
+
+/-- **C05 (missing paths below the canonical path of a node).**  `slash ++ renderPos p` is the path `xpath()` gives the node at
+`p` (C01); followed by `/k`: when the node is a dict without the key `k`, item access raises IndexError, `pop` returns the
+default, `delete` raises KeyError; when the node is a scalar, item access and `delete` raise IndexError, `pop` returns the
+default; the tree is unchanged every time. -/
+theorem C05_miss_canonical (cls : Cls) (kvs : List (Str × Val)) (p : Pos) (k : Str) (c d : Val) (r : Bool)
+    (hp : PlainPos p) (hk : PlainKey k) (hget : getAt (.dict cls kvs) p = some c)
+    (fuel : Nat) (hf : fuel ≥ 2 * p.length + 1) :
+    let t := Val.dict cls kvs
+    let xp := slash ++ renderPos p ++ '/' :: k
+    ((∃ cls' kvs', c = .dict cls' kvs' ∧ lookup k kvs' = Option.none) →
+      getItem fuel t xp = (t, .error .IndexError) ∧ pop fuel t xp d r = .ok (t, d) ∧
+      delete fuel t xp r = (t, .error .KeyError)) ∧
+    (isList c = false ∧ isDict c = false →
+      getItem fuel t xp = (t, .error .IndexError) ∧ pop fuel t xp d r = .ok (t, d) ∧
+      delete fuel t xp r = (t, .error .IndexError)) := by
+  intro t xp
+  have hxp : renderSp .two (canonSteps p ++ .key k :: []) = xp := canon_path cls kvs p c k hget
+  have hps : PlainSteps (canonSteps p ++ .key k :: []) :=
+    (plainSteps_append _ _).2 ⟨plainSteps_canon p hp, hk, trivial⟩
+  have hsg := stepsGet_canon p _ c hget
+  have hf' : fuel ≥ 2 * (canonSteps p).length + 1 := by rw [canonSteps_length]; exact hf
+  constructor
+  · rintro ⟨cls', kvs', rfl, hl⟩
+    have h1 := C05_pop_miss_unknown_key cls kvs .two (canonSteps p) [] k cls' kvs' d r hps hsg hl (Or.inl (by decide)) fuel hf'
+    have h2 := C05_delete_miss_unknown_key cls kvs .two (canonSteps p) [] k cls' kvs' r hps hsg hl (Or.inl (by decide)) fuel hf'
+    rw [hxp] at h1 h2
+    exact ⟨h1.1, h1.2.1, h2⟩
+  · intro hleaf
+    have h1 := C05_pop_miss_below_leaf cls kvs .two (canonSteps p) [] k c d r hps hsg hleaf fuel hf'
+    have h2 := C05_delete_miss_below_leaf cls kvs .two (canonSteps p) [] k c r hps hsg hleaf fuel hf'
+    rw [hxp] at h1 h2
+    exact ⟨h1.1, h1.2.1, h2⟩
+
+/-! Non-vacuity: `exHidden` = `{a: 1, o: {p: {q: 1}}, h: [1, {x: 1}, {}]}`.  Unknown key below `h[-2]` written `//h/[last()-1]/zz[0]/y`
+(the miss carries an index and a further step); a name step below the leaf `o/p/q`; the canonical path of `xpath()` is a member of
+the family; the model evaluates to what the theorems say. -/
+example : renderSp .two [.key ['o'], .key ['p'], .key ['q'], .key ['z']] = ['/', '/', 'o', '/', 'p', '/', 'q', '/', 'z'] ∧
+    renderSp .two [.key ['h'], .idx (.lit 1) false, .key ['z']] = slash ++ renderPos [.key ['h'], .idx 1, .key ['z']] := by decide
+example : pop 40 exHidden ['/', '/', 'h', '/', '[', 'l', 'a', 's', 't', '(', ')', '-', '1', ']', '/', 'z', 'z', '[', '0', ']', '/', 'y']
+      (.str ['D']) true = .ok (exHidden, .str ['D']) :=
+  (C05_pop_miss_unknown_key .n0 _ .two [.key ['h'], .idx (.lastMinus 1) true] [.idx (.lit 0) false, .key ['y']] ['z', 'z'] .n0
+    [(['x'], .int 1)] (.str ['D']) true ⟨pk 'h', ⟨by decide, by decide, by decide⟩, pk 'y', trivial⟩ rfl rfl (Or.inl (by decide)) 40
+    (by decide)).2.1
+example : delete 40 exHidden ['z', 'z'] false = (exHidden, .error .KeyError) ∧
+    delete 40 exHidden ['/', 'z', 'z'] true = (exHidden, .error .KeyError) :=
+  ⟨by decide, C05_delete_miss_unknown_key .n0 _ .one [] [] ['z', 'z'] .n0 _ true ⟨⟨by decide, by decide, by decide⟩, trivial⟩ rfl rfl
+    (Or.inl (by decide)) 40 (by decide)⟩
+example : delete 40 exHidden ['o', '/', 'p', '/', 'q', '/', 'z'] true = (exHidden, .error .IndexError) :=
+  C05_delete_miss_below_leaf .n0 _ .rel [.key ['o'], .key ['p'], .key ['q']] [] ['z'] (.int 1) true
+    ⟨pk 'o', pk 'p', pk 'q', pk 'z', trivial⟩ rfl ⟨rfl, rfl⟩ 40 (by decide)
+example : (getItem 40 exHidden ['o', '/', 'p', '/', 'q', '/', 'z']) = (exHidden, .error .IndexError) ∧
+    pop 40 exHidden ['o', '/', 'p', '/', 'q', '/', 'z'] Val.none false = .ok (exHidden, Val.none) :=
+  have h := C05_pop_miss_below_leaf .n0 _ .rel [.key ['o'], .key ['p'], .key ['q']] [] ['z'] (.int 1) Val.none false
+    ⟨pk 'o', pk 'p', pk 'q', pk 'z', trivial⟩ rfl ⟨rfl, rfl⟩ 40 (by decide)
+  ⟨h.1, h.2.2⟩
+example : pop 40 exHidden ['h', '[', '3', ']', '/', 'x'] (.str ['D']) false = .ok (exHidden, .str ['D']) :=
+  C05_pop_miss_out_of_range .n0 _ .rel [.key ['h'], .idx (.lit 3) false, .key ['x']] (.str ['D']) false
+    ⟨pk 'h', pk 'x', trivial⟩ (by decide) 40 (by decide)
+
+example : delete 40 exHidden ['/', '/', 'h', '[', '-', '4', ']', '/', 'x'] true = (exHidden, .error .IndexError) :=
+  C05_delete_miss_out_of_range .n0 _ .two [.key ['h'], .idx (.neg 4) false, .key ['x']] true
+    ⟨pk 'h', pk 'x', trivial⟩ (by decide) 40 (by decide)
+
+-- the canonical form: `//h[1]/zz` (unknown key of the dict `h[1]`), `//h[1]/x/zz` (below the leaf `h[1]/x`)
+example : slash ++ renderPos [.key ['h'], .idx 1] ++ '/' :: ['z', 'z'] = ['/', '/', 'h', '[', '1', ']', '/', 'z', 'z'] := by decide
+example : delete 40 exHidden ['/', '/', 'h', '[', '1', ']', '/', 'z', 'z'] false = (exHidden, .error .KeyError) :=
+  ((C05_miss_canonical .n0 _ [.key ['h'], .idx 1] ['z', 'z'] _ Val.none false ⟨pk 'h', trivial⟩ ⟨by decide, by decide, by decide⟩
+    rfl 40 (by decide)).1 ⟨.n0, _, rfl, rfl⟩).2.2
+example : pop 40 exHidden ['/', '/', 'h', '[', '1', ']', '/', 'x', '/', 'z', 'z'] (.int 7) true = .ok (exHidden, .int 7) :=
+  ((C05_miss_canonical .n0 _ [.key ['h'], .idx 1, .key ['x']] ['z', 'z'] _ (.int 7) true ⟨pk 'h', pk 'x', trivial⟩
+    ⟨by decide, by decide, by decide⟩ rfl 40 (by decide)).2 ⟨rfl, rfl⟩).2.1
 
 end N0.C05
